@@ -55,7 +55,7 @@ prop(
 
 prop(
     "C01",
-    contract_modules=["contracts.c01"],
+    contract_modules=["contracts.c01", "contracts.c01r"],
     bcc="c01",
     level='other',
     claimed=True,
@@ -111,7 +111,7 @@ prop(
 
 prop(
     "C02",
-    contract_modules=["contracts.c02"],
+    contract_modules=["contracts.c02", "contracts.c01r"],
     bcc="c02",
     level="other",
     claimed=False,
